@@ -315,7 +315,24 @@ def r144(ctx):
             ctx.bad(rid, c, "the live table receives a path object that still references files in the worker directory")
 
 
+def r145(ctx):
+    """Values are written as they are: no `value or default` (0.0 is a legal energy / order)."""
+    from .shared import numeric_or_default, numeric_option_truthiness
+    n = numeric_or_default(ctx, "R-14.5", [FORMATTER, PATH], "a stored energy / order parameter of exactly 0.0 would be written as the default, e.g. nan")
+    cls = ctx.tree.cls(FORMATTER, "EnergyFormatter")
+    ap = [s for s in cls.body if isinstance(s, FUNC) and s.name == "apply_format"][0]
+    # the None test of the energy writer is an identity test
+    tests = [t for t in walk_local(ap) if isinstance(t, ast.If)]
+    ok = any(isinstance(t.test, ast.Compare) and isinstance(t.test.ops[0], (ast.Is, ast.IsNot)) and isinstance(t.test.comparators[0], ast.Constant) and t.test.comparators[0].value is None for t in tests)
+    truthy = [t for t in tests if isinstance(t.test, ast.Name) or (isinstance(t.test, ast.UnaryOp) and isinstance(t.test.operand, ast.Name))]
+    if truthy:
+        ctx.bad("R-14.5", truthy[0], "EnergyFormatter.apply_format decides 'no value' by truthiness: an energy of exactly 0.0 is written as nan", construct=short(truthy[0].test, 50))
+    elif ok or n == 0:
+        ctx.ok("R-14.5", ap, "energy writer: missing values are detected with `is None`; no `value or default` in the path-file writers/readers")
+
+
 def run(ctx):
+    ctx.rule("R-14.5", "path-file writers write values as they are: 0.0 is never mistaken for a missing value", floor=1)
     ctx.rule("R-14.1", "traj.txt column roles and the trajectory sub-directory agree between writer and reader", floor=9)
     ctx.rule("R-14.2", "order.txt / energy.txt layouts and file names agree between writer and readers", floor=7)
     ctx.rule("R-14.3", "deletion safety (C08 R-8.3)", floor=5)
@@ -324,6 +341,7 @@ def run(ctx):
     ctx.attempt(r142, ctx)
     ctx.attempt(r143, ctx)
     ctx.attempt(r144, ctx)
+    ctx.attempt(r145, ctx)
 
 
 VARIANTS = [
@@ -342,6 +360,8 @@ VARIANTS = [
     B("c14-output-returns-input", FORMATTER, "        path = self._move_path(path, traj_dir, self.keep_traj_fnames)\n        return path", "        self._move_path(path, traj_dir, self.keep_traj_fnames)\n        return path", "R-14.4"),
     B("c14-register-worker-files", REPEX, "                out_traj = self.pstore.output(self.cstep, data)\n", "                self.pstore.output(self.cstep, data)\n", "R-14.4"),
     B("c14-dest-not-under-target", FORMATTER, "            dest = os.path.join(target_dir, localfile)\n", "            dest = os.path.join(os.path.dirname(pos_file), localfile)\n", "R-14.4"),
+    B("c14-zero-energy-written-as-nan", FORMATTER, "            value = energy.get(key, None)\n            if value is None:\n                towrite.append(self.ENERGY_FMT[i + 1].format(float(\"nan\")))\n            else:\n                towrite.append(self.ENERGY_FMT[i + 1].format(float(value)))", "            value = energy.get(key) or float(\"nan\")\n            towrite.append(self.ENERGY_FMT[i + 1].format(float(value)))", "R-14.5", control=True, why="seeded C14_b"),
+    B("c14-zero-energy-truthiness", FORMATTER, "            if value is None:\n                towrite.append(self.ENERGY_FMT[i + 1].format(float(\"nan\")))", "            if not value:\n                towrite.append(self.ENERGY_FMT[i + 1].format(float(\"nan\")))", "R-14.5"),
     K("c14-keep-vel-local-names", FORMATTER, "            vel = -1 if phasepoint.vel_rev else 1\n            yield self.FMT.format(i, filename_short, idx, vel)", "            direction = -1 if phasepoint.vel_rev else 1\n            yield self.FMT.format(i, filename_short, idx, direction)"),
     K("c14-keep-update-energies-keywords", PATH, '                energy["data"]["ekin"], energy["data"]["vpot"]', '                vpot=energy["data"]["vpot"], ekin=energy["data"]["ekin"]'),
     K("c14-keep-basename-inline", FORMATTER, "            filename_short = os.path.basename(filename)\n            if idx is None:\n                idx = 0\n            vel = -1 if phasepoint.vel_rev else 1\n            yield self.FMT.format(i, filename_short, idx, vel)", "            if idx is None:\n                idx = 0\n            vel = -1 if phasepoint.vel_rev else 1\n            yield self.FMT.format(i, os.path.basename(filename), idx, vel)"),
